@@ -37,6 +37,7 @@ impl Scenario for ConnScenario {
 			max_conns: self.limit,
 			slow_steps: 1,
 			connect_points: true,
+			ping_ms: if self.name.starts_with("ws-inactive") { Some(2) } else { None },
 			..Default::default()
 		})
 	}
@@ -250,6 +251,9 @@ pub fn scenarios(thorough: bool) -> Vec<ConnScenario> {
 	add("ws-with-subscription-reset", 1, vec![ws(vec![PeerAct::Subscribe(0), PeerAct::Drop]), ws(vec![PeerAct::Call, PeerAct::CloseFrame]), http(vec![HttpAct::Call])], false, mask_harness_only);
 	add("ws-protocol-violation", 1, vec![Conn::WsRaw(vec![RawWsAct::Call, RawWsAct::ReservedOpcode]), ws(vec![PeerAct::Call, PeerAct::CloseFrame]), http(vec![HttpAct::Call])], false, mask_harness_only);
 	add("ws-protocol-violation-idle", 1, vec![Conn::WsRaw(vec![RawWsAct::ReservedOpcode]), Conn::WsRaw(vec![RawWsAct::Call])], false, mask_harness_only);
+	// server-side close for ping/pong inactivity (the raw peer never answers pings), idle and with a call in flight
+	add("ws-inactive-idle", 1, vec![Conn::WsRaw(vec![RawWsAct::Idle]), http(vec![HttpAct::Call]), ws(vec![PeerAct::Call, PeerAct::CloseFrame])], false, mask_harness_only);
+	add("ws-inactive-call-in-flight", 1, vec![Conn::WsRaw(vec![RawWsAct::SlowCall]), http(vec![HttpAct::Call]), http(vec![HttpAct::Call])], false, mask_harness_only);
 	add("mixed-limit2", 2, vec![ws(vec![PeerAct::Call, PeerAct::CloseFrame]), http(vec![HttpAct::SlowCall]), http(vec![HttpAct::Call]), ws(vec![PeerAct::Call])], false, mask_harness_only);
 	add("server-stop-then-probe", 1, vec![ws(vec![PeerAct::SlowCall]), http(vec![HttpAct::Call])], true, mask_harness_only);
 	add("ws-close-server-points", 1, vec![ws(vec![PeerAct::Call, PeerAct::CloseFrame]), ws(vec![PeerAct::Call])], false, mask_all_server);
